@@ -570,9 +570,9 @@ def s_add(vc):
     vc.ensure("add.stored_last", st.store_ids() == stored_before + ["id0"])
     K1 = And(st.show_marked, len_(st.marked[0]) == 0, st.match[0])
     if vc.branch(K1):
-        vc.ensure_kf("add.Vis.exactly_matching[0]", Iff(_in(t, st.view_items()), st.visible_spec(0)), "KF-C43-1", K1)
+        vc.ensure("add.Vis.exactly_matching[0]", Iff(_in(t, st.view_items()), st.visible_spec(0)))  # was recorded finding KF-C43-1, repaired in /repo (see known_findings.d)
         return
-    vc.ensure_kf("add.Vis.exactly_matching[0]", Iff(_in(t, st.view_items()), st.visible_spec(0)), "KF-C43-1", K1)
+    vc.ensure("add.Vis.exactly_matching[0]", Iff(_in(t, st.view_items()), st.visible_spec(0)))  # was recorded finding KF-C43-1, repaired in /repo (see known_findings.d)
     st.check("add", skip_vis=(0,))
     st.check_signals("add", before)
     entered = _in(t, st.view_items())
@@ -622,9 +622,9 @@ def _update_contract(vc, target_state):
     K1 = And(st.show_marked, len_(st.marked[0]) == 0, st.match[0])
     vis = Iff(_in(t, st.view_items()), st.visible_spec(0))
     if vc.branch(K1):
-        vc.ensure_kf("update.Vis.exactly_matching[0]", vis, "KF-C43-1", K1)
+        vc.ensure("update.Vis.exactly_matching[0]", vis)  # was recorded finding KF-C43-1, repaired in /repo (see known_findings.d)
         return
-    vc.ensure_kf("update.Vis.exactly_matching[0]", vis, "KF-C43-1", K1)
+    vc.ensure("update.Vis.exactly_matching[0]", vis)  # was recorded finding KF-C43-1, repaired in /repo (see known_findings.d)
     # every cached sort key of the updated flow must be current afterwards (else a later re-sort / re-insert misplaces it).
     # The code refreshes only the key of the selected order and only while the flow is in the view.
     cache = st.settings_of(0) or {}
